@@ -129,7 +129,12 @@ func (s *Server) Project(interval, threshold int64, tag string) *types.Project {
 
 // ProjectWith is Project with the RemoveOnDetach option of the project.
 func (s *Server) ProjectWith(interval, threshold int64, tag string, removeOnDetach bool) *types.Project {
-	k := fmt.Sprintf("%d/%d/%s/%v", interval, threshold, tag, removeOnDetach)
+	return s.ProjectLimits(interval, threshold, tag, removeOnDetach, 0, 0)
+}
+
+// ProjectLimits is ProjectWith plus the per-document subscriber / attachment limits (0 = unlimited).
+func (s *Server) ProjectLimits(interval, threshold int64, tag string, removeOnDetach bool, maxSubscribers, maxAttachments int) *types.Project {
+	k := fmt.Sprintf("%d/%d/%s/%v/%d/%d", interval, threshold, tag, removeOnDetach, maxSubscribers, maxAttachments)
 	s.projMu.Lock()
 	defer s.projMu.Unlock()
 	if p, ok := s.projs[k]; ok {
@@ -145,6 +150,8 @@ func (s *Server) ProjectWith(interval, threshold int64, tag string, removeOnDeta
 		SnapshotInterval:  &interval,
 		SnapshotThreshold: &threshold,
 		RemoveOnDetach:    &removeOnDetach,
+		MaxSubscribersPerDocument: &maxSubscribers,
+		MaxAttachmentsPerDocument: &maxAttachments,
 	})
 	if err != nil {
 		panic(err)
